@@ -1,6 +1,9 @@
 package main
 
-import "strings"
+import (
+	"fmt"
+	"strings"
+)
 
 func init() {
 	register("C13", "Storage backends implement the same read semantics", func(e *Engine, r *Reporter) {
@@ -77,11 +80,24 @@ func init() {
 		ruleEveryTupleContributesModule(e, r)
 		ruleListStoresIDsPredicate(e, r)
 		r.Rule("apimethod-total", "Authorizer.getRelation handles every apimethod.APIMethod constant; unknown methods are an error", 1)
+		nAPI := 0
 		for _, s := range e.valueSwitches() {
-			if s.Subject == "APIMethod" {
+			if s.Subject == "APIMethod" && s.Pkg.PkgPath == modPath+"/internal/authz" {
+				nAPI++
 				ok, d := judgeSwitch(s, nil)
 				r.Check(ok && len(s.Missing) == 0, s.key(), e.pos(s.Pos), d, d)
 			}
+		}
+		// the same table written as a map literal keyed by APIMethod
+		for i, tb := range e.enumKeyedMapLiterals("APIMethod") {
+			if tb.Pkg != "internal/authz" {
+				continue
+			}
+			nAPI++
+			r.Check(len(tb.Missing) == 0, fmt.Sprintf("internal/authz APIMethod lookup table #%d", i), e.pos(tb.Pos), fmt.Sprintf("total: covers %v", tb.Covered), fmt.Sprintf("API methods %v have no relation in the lookup table", tb.Missing))
+		}
+		if nAPI == 0 {
+			blind("apimethod-total: neither a switch nor a lookup table over apimethod.APIMethod found in internal/authz")
 		}
 	})
 }
